@@ -70,7 +70,8 @@ def profiles():
     return {"mock": ["mock"], "full": ["full"], "both": ["mock", "full"]}.get(p, ["mock"])
 
 
-def run_hub(pid, a, rule, assumptions=()):
+def run_hub(pid, a, rule, assumptions=(), extra_part=None):
+    """extra_part(c): a further part of the same check (same Check object, one evidence file, one exit status)"""
     c = Check(pid, a.tier, a.seed)
     c.cov["rule"] = rule
     c.assumptions = list(COMMON_ASSUMPTIONS) + list(assumptions)
@@ -112,6 +113,8 @@ def run_hub(pid, a, rule, assumptions=()):
         if m:
             c.diff_judge(ops, m)
             impl_side(c, ops, impl)
+    if extra_part:
+        extra_part(c)
     if os.path.exists(os.path.join(LEAN, "ClientGoVerif", "Props", pid + ".lean")):
         c.prove("ClientGoVerif.Props." + pid)
     return c.finish()
